@@ -12,7 +12,10 @@ def run_one(case, clsname):
     for _ in range(case["n0"]):
         cls()
     out = []
-    for op in case["ops"]:
+    ctl.pinned = set(case.get("pinned") or ())
+    arm_at = case.get("pin_after", 0)
+    for opi, op in enumerate(case["ops"]):
+        ctl.armed = opi >= arm_at          # the pins take effect after an initial building phase
         ctl.begin(op.get("faults"))
         ctl.salt = len(repr(sorted((k, repr(v)) for k, v in op.items() if k != "faults")))
         res = "ok"
@@ -53,7 +56,7 @@ def impl(case):
     sys.setrecursionlimit(220)
     try:
         n_ops, n_obs = run_one(case, case.get("nmcls", "mixin"))
-        l_ops, l_obs = run_one(case, {"eqmixin": "lighteq", "falsymixin": "lightfalsy"}.get(case.get("nmcls"), "light"))
+        l_ops, l_obs = run_one(case, {"eqmixin": "lighteq", "falsymixin": "lightfalsy", "pinmixin": "lightpin"}.get(case.get("nmcls"), "light"))
     finally:
         sys.setrecursionlimit(old)
     return {"nm": n_ops, "light": l_ops, "nm_obs": n_obs, "light_obs": l_obs}
